@@ -21,22 +21,22 @@ def run(ctx):
         return
     T = pz.T
     one_minus = RF(1) - pz.beta
-    numeric.run_obligation(n1, "C06.N1", f, T, pz.n - (pz.ideal * one_minus - RF(1)), "n - (g(1-c) - 1) >= 0", box=("beta",), subst=pz.csub)
-    numeric.run_obligation(n2, "C06.N2", f, T, pz.ideal * one_minus + RF(1) - pz.n, "g(1-c) + 1 - n >= 0", box=("beta",), subst=pz.csub)
+    numeric.run_obligation(n1, "C06.N1", f, T, pz.n - (pz.ideal * one_minus - RF(1)), "n - (g(1-c) - 1) >= 0", box=("beta",), subst=pz.csub, role="swap-pricing")
+    numeric.run_obligation(n2, "C06.N2", f, T, pz.ideal * one_minus + RF(1) - pz.n, "g(1-c) + 1 - n >= 0", box=("beta",), subst=pz.csub, role="swap-pricing")
     G = pz.n + pz.k
     want_k = T.floors.floor(G * pz.c / RF(D18), "ref")
     if pz.k.equals(want_k):
         i1.site("commission = floor(rate * (n + commission)) = %s" % pz.k.show())
     else:
-        i1.fail("C06.I1:%s:commission" % f.path, f.path, f.span, "commission is %s, expected floor(rate*(n+commission)) = %s" % (pz.k.show(), want_k.show()))
+        i1.fail("C06.I1:swap-pricing:commission", f.path, f.span, "commission is %s, expected floor(rate*(n+commission)) = %s" % (pz.k.show(), want_k.show()))
     # G must be a single rounding of ask - cp/(offer_pool+offer)
     if any(kind == "nonneg" and t.equals(pz.n) for (kind, t, org) in T.aborts):
         i1.site("n = gross - commission (aborting subtraction)")
     else:
-        i1.fail("C06.I1:%s:net" % f.path, f.path, f.span, "the net output is not gross - commission by aborting subtraction")
+        i1.fail("C06.I1:swap-pricing:net", f.path, f.span, "the net output is not gross - commission by aborting subtraction")
     want_sum = T.floors.floor(pz.a * pz.y / pz.x, "ref")
     if pz.s is None:
-        i2.fail("C06.I2:%s:spread-untranslatable" % f.path, f.path, f.span, "cannot interpret the spread component (conditional / saturating arithmetic?): the identity n + commission + spread = floor(a*y/x) is not a term identity any more")
+        i2.fail("C06.I2:swap-pricing:spread-untranslatable", f.path, f.span, "cannot interpret the spread component (conditional / saturating arithmetic?): the identity n + commission + spread = floor(a*y/x) is not a term identity any more")
         tot = None
     else:
         tot = pz.n + pz.k + pz.s
@@ -46,14 +46,14 @@ def run(ctx):
         i2.site("n + commission + spread = %s = floor(a*y/x)" % want_sum.show())
     else:
         defs = "; ".join("%s=floor(%s)" % (a, b.show()) for a, b, c in T.floors.items)
-        i2.fail("C06.I2:%s:sum" % f.path, f.path, f.span, "n + commission + spread = %s, expected floor(a*y/x) = %s  [%s]" % (tot.show(), want_sum.show(), defs[:400]))
+        i2.fail("C06.I2:swap-pricing:sum", f.path, f.span, "n + commission + spread = %s, expected floor(a*y/x) = %s  [%s]" % (tot.show(), want_sum.show(), defs[:400]))
     mm = numeric.mono_minus_floor_fraction(T, pz.n, "a")
     if mm is None:
         mm = numeric.mono(T, pz.n, "a")
     if mm == 1 or mm == 0:
         m1.site("n is non-decreasing in a: n = G - floor(G*c) is monotone in G (lemma), G = floor(y - floor(x*y*D/(x+a))/D) is monotone in a")
     else:
-        m1.fail("C06.M1:%s" % f.path, f.path, f.span, "cannot type the output as non-decreasing in the offer amount (result %s): the term is %s" % (mm, pz.n.show()))
+        m1.fail("C06.M1:swap-pricing", f.path, f.span, "cannot type the output as non-decreasing in the offer amount (result %s): the term is %s" % (mm, pz.n.show()))
     ctx.extra.setdefault("terms", {})["pricing"] = {"n": pz.n.show(), "spread": pz.s.show() if pz.s is not None else "?", "commission": pz.k.show(),
                                                     "floors": ["%s = floor(%s)  <- %s" % (a, b.show(), c) for a, b, c in T.floors.items]}
     # W1: at system level the function is applied to the pair's actual reserves and to what was delivered
